@@ -193,7 +193,7 @@ def respond (t : JoinTable) (op : String) (args : List Bytes) : String :=
        let args := (splitCh (Char.ofNat 31) pos).drop 1
        let inv : Cli.Invocation := { output := optOf out, cmd := c, args := args, all := flags.contains 'a', check := flags.contains 'c',
                                      version := optOf ver, year := year }
-       match Cli.run (tableEngine t) ⟨ue, us, un, we, ws, wn⟩ Parser.sortedOrd Parser.sortedOrd (fun p => lp.contains p) (verOk == ['1']) inv (decodeTree files) with
+       match CompareView.runWithView (tableEngine t) ⟨ue, us, un, we, ws, wn⟩ Parser.sortedOrd Parser.sortedOrd (fun p => lp.contains p) (verOk == ['1']) inv (decodeTree files) with
        | none => "ok " ++ toHexArg b!"unmodelled"
        | some r => "ok " ++ (if r.ok then "01" else "00") ++ " " ++ toHexArg r.stdout ++
            String.join (r.tree.map fun (p, c) => " " ++ toHexArg p ++ " " ++ toHexArg c))
